@@ -285,3 +285,22 @@ def returned_values(fnode):
             else:
                 out.append((v, st))
     return out
+
+
+def cond_values(fnode, name):
+    """[(value node, [(test, polarity), ...])] for every value a plain local `name` is given in fnode, with the conditions under which it
+    gets it.  A conditional expression on the right-hand side counts as two assignments under its test and the negated test - the form the
+    canonical front end (canon C11) gives to `if t: x = a else: x = b`."""
+    from .flow import path_conditions
+    out = []
+
+    def expand(v, conds):
+        if isinstance(v, ast.IfExp):
+            expand(v.body, conds + [(v.test, True)])
+            expand(v.orelse, conds + [(v.test, False)])
+        else:
+            out.append((v, conds))
+    for s in iter_stores(fnode):
+        if isinstance(s.node, ast.Name) and s.node.id == name and s.value is not None and s.kind == "assign":
+            expand(s.value, list(path_conditions(fnode, s.stmt)))
+    return out
